@@ -66,6 +66,8 @@ class ExecMixin(object):
                     res = self.run_stmt_with_ghost(stmt, s)
                 except PathEnd:
                     continue
+                except RaiseSignal as rs:
+                    res = [(RAISE, s, (rs.cls, rs.args_))]
                 for kind, s2, val in res:
                     if kind == NORMAL:
                         nxt.append(s2)
